@@ -871,7 +871,7 @@ def oracle_history(files, cmds, obs, exited_at, snaps, fault=None, final=None, n
                     stale[n] = True
                     content[n] = None
                 elif stale.get(n):
-                    if sv_here.get(n) == 'saved' or (kind == 'reload' and prev_cur == n and b'[r]' in o['cmdout']):
+                    if sv_here.get(n) == 'saved' or (kind in ('reload', 'eself') and prev_cur == n and b'[r]' in o['cmdout']):      # the buffer was (re-)read from its file: the ghost disk is what was read
                         content[n] = sn
                         stale[n] = False
                 else:
